@@ -660,3 +660,69 @@ func slotFragRun(cf []string) []string {
 	note("slot=other")
 	return []string{"ok", "other", out[1]}
 }
+
+// ---- stream `tree`: command trees, for the tie with Model/Descent.v (cobra's Find and traverse's descent)
+// case: the tree tokens, <words>, cur ; impl: ok <path cobra runs | rejected> <path of carapace's marker | -> <slot...>
+func init() {
+	props["tree"] = prop{
+		configs: func(tier string) []map[string]string { return []map[string]string{{}} },
+		gen:     treeGen,
+		run:     treeRun,
+		shard:   600,
+	}
+}
+
+func treeGen(r *Rng, i int, cfg int, tier string) []string {
+	root := genCmd(r, 0, "root")
+	words, cur := genLine(r, root)
+	// the word under the cursor: as in the one-command stream (no shorthand word under the cursor)
+	if strings.HasPrefix(cur, "-") && !strings.HasPrefix(cur, "--") {
+		cur = r.Pick([]string{"", "x", "--"})
+	}
+	cf := root.tokens()
+	cf = append(cf, strList(words)...)
+	cf = append(cf, cur)
+	note("words=" + strconv.Itoa(len(words)))
+	return cf
+}
+
+func treeRun(cf []string) []string {
+	def, rest := parseCmd(cf)
+	words, rest := takeList(rest)
+	cur := rest[0]
+	// where cobra itself goes with the typed words
+	base := execTree(def, words)
+	cobraPath := "rejected"
+	if base.ran {
+		cobraPath = base.path
+	}
+	out := slotRunDef(def, words, cur)
+	if out[0] != "ok" {
+		return out
+	}
+	var fs, ms, other []string
+	for _, p := range strings.Split(out[1], "+") {
+		switch {
+		case p == "" || p == "S":
+		case strings.HasPrefix(p, "M:"):
+			ms = append(ms, p)
+		case strings.HasPrefix(p, "F:") || strings.HasPrefix(p, "P:") || strings.HasPrefix(p, "D:"):
+			fs = append(fs, p)
+		default:
+			other = append(other, p)
+		}
+	}
+	res := []string{"ok", cobraPath}
+	switch {
+	case len(fs) == 1 && len(ms) == 0 && len(other) == 0:
+		seg := strings.Split(fs[0], ":")
+		if seg[0] == "F" {
+			// the marker names the command that DEFINES the flag; report the flag and the prefix only
+			return append(res, "?", "F", seg[2], strings.TrimSuffix(lastProbe, "PROBE"))
+		}
+		return append(res, seg[1], seg[0], seg[2])
+	case len(ms) > 0 && len(fs) == 0 && len(other) == 0:
+		return append(res, "?", "M")
+	}
+	return append(res, "?", "other", out[1])
+}
